@@ -518,12 +518,12 @@ static std::string run_MP(std::vector<words_t> const &s)
 	catch(booster::regex_error const &) { return "cfg-error"; }
 }
 
-static cppcms::json::value service_config()
+static cppcms::json::value service_config(bool url_throws=true)
 {
 	cppcms::json::value cfg;
 	cfg["service"]["api"]="scgi";
 	cfg["service"]["socket"]="c20-unused.sock"; // never opened: the service is not run
-	cfg["misc"]["invalid_url_throws"]=true;
+	cfg["misc"]["invalid_url_throws"]=url_throws; // false is the default of cppcms: real_map then builds the URL in a steal_buffer<>
 	cfg["http"]["script"]="/s";
 	cfg["localization"]["locales"][0]="en_US.UTF-8"; // request text is UTF-8 (validate_encoding of typed parameters)
 	return cfg;
@@ -648,7 +648,18 @@ static bool parse_path(std::string const &w,std::vector<int> &path)
 
 // U <roothex> <nh> k v … <pos> <keyhex> <np> params… | tree |          (pos: "-" or i.j.k = child indexes from the root)
 // R <meth> <roothex> <nh> k v … <pos> <keyhex> <np> params… | tree | oracle   : map, strip root, dispatch from the root
-static std::string run_UR(std::vector<words_t> const &s,bool route)
+static cppcms::service *g_srv_nt; // misc.invalid_url_throws=false
+static std::string run_UR_in(std::vector<words_t> const &s,bool route);
+static std::string run_UR(std::vector<words_t> const &s,bool route,bool nothrow)
+{
+	cppcms::service *saved=g_srv;
+	if(nothrow) g_srv=g_srv_nt;
+	std::string r;
+	try { r=run_UR_in(s,route); } catch(...) { g_srv=saved; throw; }
+	g_srv=saved;
+	return r;
+}
+static std::string run_UR_in(std::vector<words_t> const &s,bool route)
 {
 	words_t const &w=s[0];
 	size_t i=1; std::string meth;
@@ -719,8 +730,10 @@ static std::string run_kind(words_t const &w,std::vector<words_t> const &s)
 	if(w[0]=="MP") return run_MP(s);
 	if(w[0]=="P") return run_P(s);
 	if(w[0]=="T") return run_T(s);
-	if(w[0]=="U") return run_UR(s,false);
-	if(w[0]=="R") return run_UR(s,true);
+	if(w[0]=="U") return run_UR(s,false,false);
+	if(w[0]=="R") return run_UR(s,true,false);
+	if(w[0]=="Un") return run_UR(s,false,true);
+	if(w[0]=="Rn") return run_UR(s,true,true);
 	return "bad-op";
 }
 
@@ -728,6 +741,7 @@ int main(int argc,char **argv)
 {
 	g_oracle = argc>1 && std::string(argv[1])=="oracle";
 	cppcms::service srv(service_config());
-	g_srv=&srv;
+	cppcms::service srv_nt(service_config(false));
+	g_srv=&srv; g_srv_nt=&srv_nt;
 	return vh::drive(run);
 }
